@@ -716,6 +716,38 @@ class MonC06(object):
                                "step %d: worker %s stays FREE although task %s (%s) could accept him" % (snap.step, w.ID, t.ID, snap.tstate[t].name),
                                task=t, res=w)
             else:
+                # a single-task flat component that lies NOWHERE after the pass although a workplace of its task
+                # had room for it throughout the pass (components may leave and enter during a pass, each at most
+                # once: everything that lay there at 'updated' OR lies there at 'allocated' is counted),
+                # a FREE facility there that could serve the task and a FREE worker who can operate it
+                c = t.target_component
+                if (c is not None and len(c.targeted_task_list) == 1 and not c.parent_component_list and not c.child_component_list
+                        and snap.cplace.get(c) is None and snap.tstate[t] == TS.READY and not ws and not fs):
+                    for wp in t.allocated_workplace_list:
+                        if wp not in snap.wpcontent or not any(x is t for x in wp.targeted_task_list):
+                            continue
+                        up_ = tr.last.get("updated")
+                        if up_ is None or wp not in up_.wpcontent:
+                            continue
+                        there = {id(x): x for x in list(up_.wpcontent[wp]) + list(snap.wpcontent[wp])}
+                        used = sum(x.space_size for x in there.values())
+                        if not (wp.max_space_size - used >= c.space_size):
+                            continue
+                        tr.counters["C06.unplaced_component_with_room"] += 1
+                        for f in wp.facility_list:
+                            if snap.fstate[f] != FSs.FREE or snap.fassigned[f] or skill(f, t.name) <= 1e-10:
+                                continue
+                            if t.fixing_allocating_facility_id_list is not None and f.ID not in t.fixing_allocating_facility_id_list:
+                                continue
+                            for w in free_workers:
+                                if not worker_eligible(project, w, t):
+                                    continue
+                                if not (w.facility_skill_map.get(f.name, 0.0) > 1e-10):
+                                    continue
+                                tr.violate("C06", "C06/idle-eligible-pair:component-not-placed",
+                                           "step %d: component %s (size %r) of the READY facility task %s lies nowhere although %s has %r of %r free; worker %s and facility %s stay FREE" % (
+                                               snap.step, c.ID, c.space_size, t.ID, wp.ID, wp.max_space_size - used, wp.max_space_size, w.ID, f.ID),
+                                           task=t, res=w, fac=f)
                 for f in usable_free_facilities(project, snap, tr, t, self.touched):
                     for w in free_workers:
                         tr.counters["C06.facility_pairs_examined"] += 1
